@@ -97,7 +97,58 @@ def worker_compiled(inst, tier):
     obs += analyse("reset", lambda s: g.reset(s)[0], sup_expected=None)
     obs += analyse("step", lambda s: g.step(s)[0], sup_expected=lambda gsym: gsym.step.item() != 0)
     obs += analyse("step(override)", lambda s, ss, o: g.step(s, ss, o)[0], ss0, out0, sup_expected=None)
+    # rollout (both the carry-only fori_loop and the stacking scan): every tick of the partitions it covers executes exactly once -- the loop body must
+    # contain the partition runner once (values are pure, so a duplicated call changes no returned array; only the effect count sees it)
+    from collections import Counter
+    import numpy as onp
+    n_part = min(2, max_step)
+    for co in (True, False):
+        calls = cg.UFCalls()
+        it = jx.Interp(callback_handler=calls.handler)
+        tr = jx.Traced(lambda s_, _co=co: g.rollout(s_, max_steps=n_part, carry_only=_co), gs0)
+        tr.run(it, tr.concrete_inputs(it))
+        got = Counter()
+        for c in calls.calls:
+            if c["guard"] is False or not c["tag"].startswith("oracle_step_"):
+                continue
+            got[(c["tag"][len("oracle_step_"):], int(c["args"][0].item()))] += 1
+        want = Counter()
+        for sname, sl in g.timings.slots.items():
+            run_, seq_ = onp.atleast_2d(onp.asarray(sl.run)), onp.atleast_2d(onp.asarray(sl.seq))
+            for p_ in range(n_part):
+                if bool(run_[0, p_]):
+                    want[(sl.kind, int(seq_[0, p_]))] += 1
+        ok = got == want
+        o = Ob(f"rollout(carry_only={co}): every tick of the covered partitions executes exactly once", "unsat" if ok else "sat", 0, inst, key="compiled-rollout-count", queries=max(1, sum(want.values())),
+               detail=f"{sum(got.values())} executions for {sum(want.values())} scheduled ticks; differing: {[(k, got[k], want[k]) for k in sorted(set(got) | set(want)) if got[k] != want[k]][:4]}",
+               what=f"rollout(carry_only={co}) does not execute every scheduled tick exactly once: {[(k, got[k], want[k]) for k in sorted(set(got) | set(want)) if got[k] != want[k]][:3]} (node, seq: executed, scheduled)")
+        if not ok:
+            o.replayed = _replay_rollout(inst, co, n_part)
+        obs.append(o)
     return obs
+
+
+def _replay_rollout(inst, co, n_part):
+    """real rollout with the logging oracle node (eager): executions per (node, seq) against the schedule"""
+    import jax
+    from collections import Counter
+    from vlib import cg, fixtures
+
+    try:
+        nodes, cgr, g = cg.build(inst, node_cls=fixtures.OracleNode)
+        fixtures.CALL_LOG.clear()
+        with jax.disable_jit():
+            g.rollout(g.init(jax.random.PRNGKey(1)), max_steps=n_part, carry_only=co)
+        got = Counter((t[len("oracle_step_"):], int(a[0])) for t, a in fixtures.CALL_LOG if t.startswith("oracle_step_"))
+        want = Counter()
+        for sname, sl in g.timings.slots.items():
+            run_, seq_ = np.atleast_2d(np.asarray(sl.run)), np.atleast_2d(np.asarray(sl.seq))
+            for p_ in range(n_part):
+                if bool(run_[0, p_]):
+                    want[(sl.kind, int(seq_[0, p_]))] += 1
+        return got != want
+    except BaseException:  # noqa
+        return None
 
 
 def _replay_concrete(fn, args, kind, sup, expect=None):
@@ -293,7 +344,7 @@ def run(rep):
                partition_runner.make_run_partition_excl_supervisor)
     insts = cg.instances(rep.tier, small=True)
     rep.configs = insts
-    rep.bounds = dict(instances=len(insts), api=["run", "reset", "step", "step(override)"], vmap="excluded by the property")
+    rep.bounds = dict(instances=len(insts), api=["run", "reset", "step", "step(override)", "rollout(carry_only=True/False, 2 partitions)"], vmap="excluded by the property")
     rep.stubs = []
     rep.assumptions = ["0 <= graph_state.step <= max_step", "user step function = arbitrary deterministic function (UF of its arguments)",
                        "effects are counted at jaxpr level: one occurrence under guard G executes iff G (lax.cond semantics, un-vmapped)",
